@@ -120,26 +120,43 @@ func TestPropScenariosExhaustive(t *testing.T) {
 			for _, ro := range []bool{false, true} {
 				for _, dt := range []string{"", "ssd"} {
 					for _, twice := range []bool{false, true} {
-						w, s := oneServerWorld(5, 5)
-						s.Vols[1] = &volState{Id: 1, Dt: dt, Size: 1, Remote: remote, RO: ro || remote}
-						s.Vols[2] = &volState{Id: 2, Dt: dt, Size: 1}
-						w.mustConnectAll(t)
-						v := s.Vols[1]
-						del := &message{&master_pb.Heartbeat{DeletedVolumes: []*master_pb.VolumeShortInformationMessage{s.shortMsg(v)}}, fmt.Sprintf("deleted(v1@%s)", dtName(dt))}
-						delete(s.Vols, 1)
-						if !registered { // the full heartbeat overtakes the delete message
+						for ec := 0; ec < 4; ec++ { // EC shards of the same id: 0 none, 1 registered before on the same disk, 2 on the other disk, 3 mounted by ec.encode just before the delete
+							w, s := oneServerWorld(5, 5)
+							s.Vols[1] = &volState{Id: 1, Dt: dt, Size: 1, Remote: remote, RO: ro || remote}
+							s.Vols[2] = &volState{Id: 2, Dt: dt, Size: 1}
+							otherDt := "ssd"
+							if dt == "ssd" {
+								otherDt = ""
+							}
+							switch ec {
+							case 1:
+								s.Ecs[1] = &ecState{Id: 1, Dt: dt, Bits: 0x1f}
+							case 2:
+								s.Ecs[1] = &ecState{Id: 1, Dt: otherDt, Bits: 0x1f}
+							}
+							w.mustConnectAll(t)
+							if ec == 3 {
+								s.Ecs[1] = &ecState{Id: 1, Dt: dt, Bits: 0x3e0}
+								w.deliver(s, &message{&master_pb.Heartbeat{NewEcShards: []*master_pb.VolumeEcShardInformationMessage{{Id: 1, Collection: collectionOf(1), EcIndexBits: 0x3e0, DiskType: dt}}}, fmt.Sprintf("newEc(ec1@%s:%014b)", dtName(dt), 0x3e0)})
+								w.mustHold(t)
+							}
+							v := s.Vols[1]
+							del := &message{&master_pb.Heartbeat{DeletedVolumes: []*master_pb.VolumeShortInformationMessage{s.shortMsg(v)}}, fmt.Sprintf("deleted(v1@%s)", dtName(dt))}
+							delete(s.Vols, 1)
+							if !registered { // the full heartbeat overtakes the delete message
+								w.deliver(s, s.fullVolumeHeartbeat())
+								w.mustHold(t)
+							}
+							w.deliver(s, del)
+							w.mustHold(t)
+							if twice {
+								w.deliver(s, &message{del.hb, "replay:" + del.desc})
+								w.mustHold(t)
+							}
 							w.deliver(s, s.fullVolumeHeartbeat())
 							w.mustHold(t)
+							vlib.Case("del: "+strings.Join(w.hist, "; "), !registered || twice, "scenario-incremental-delete")
 						}
-						w.deliver(s, del)
-						w.mustHold(t)
-						if twice {
-							w.deliver(s, &message{del.hb, "replay:" + del.desc})
-							w.mustHold(t)
-						}
-						w.deliver(s, s.fullVolumeHeartbeat())
-						w.mustHold(t)
-						vlib.Case("del: "+strings.Join(w.hist, "; "), !registered || twice, "scenario-incremental-delete")
 					}
 				}
 			}
